@@ -88,14 +88,28 @@ def cat(*ts, dim):
         t = ts[i].clone()
         if t.Us[dim] is None:
             if t.cores[dim].dim() == 2:
-                t.cores[dim] = torch.zeros(sumshapes[-1], t.cores[dim].shape[-1])
+                t.cores[dim] = torch.zeros(
+                    sumshapes[-1],
+                    t.cores[dim].shape[-1],
+                    dtype=t.cores[dim].dtype,
+                    device=t.cores[dim].device,
+                )
             else:
                 t.cores[dim] = torch.zeros(
-                    t.cores[dim].shape[0], sumshapes[-1], t.cores[dim].shape[-1]
+                    t.cores[dim].shape[0],
+                    sumshapes[-1],
+                    t.cores[dim].shape[-1],
+                    dtype=t.cores[dim].dtype,
+                    device=t.cores[dim].device,
                 )
             t.cores[dim][..., sumshapes[i] : sumshapes[i + 1], :] += ts[i].cores[dim]
         else:
-            t.Us[dim] = torch.zeros(sumshapes[-1], t.Us[dim].shape[-1])
+            t.Us[dim] = torch.zeros(
+                sumshapes[-1],
+                t.Us[dim].shape[-1],
+                dtype=t.Us[dim].dtype,
+                device=t.Us[dim].device,
+            )
             t.Us[dim][sumshapes[i] : sumshapes[i + 1], :] += ts[i].Us[dim]
         if i == 0:
             result = t
@@ -557,6 +571,8 @@ def pad(t, shape, dim=None, fill_value=0):
                         * torch.ones(
                             shape[i] - t.cores[dim[i]].shape[0],
                             t.cores[dim[i]].shape[1],
+                            dtype=t.cores[dim[i]].dtype,
+                            device=t.cores[dim[i]].device,
                         ),
                     ],
                     dim=0,
@@ -570,6 +586,8 @@ def pad(t, shape, dim=None, fill_value=0):
                             t.cores[dim[i]].shape[0],
                             shape[i] - t.cores[dim[i]].shape[1],
                             t.cores[dim[i]].shape[2],
+                            dtype=t.cores[dim[i]].dtype,
+                            device=t.cores[dim[i]].device,
                         ),
                     ],
                     dim=1,
@@ -580,7 +598,10 @@ def pad(t, shape, dim=None, fill_value=0):
                     t.Us[dim[i]],
                     mult
                     * torch.ones(
-                        shape[i] - t.Us[dim[i]].shape[0], t.Us[dim[i]].shape[1]
+                        shape[i] - t.Us[dim[i]].shape[0],
+                        t.Us[dim[i]].shape[1],
+                        dtype=t.Us[dim[i]].dtype,
+                        device=t.Us[dim[i]].device,
                     ),
                 ],
                 dim=0,
